@@ -21,7 +21,7 @@ def run_partitions(case):
     B, T, unit = case["sch"]
     try:
         ds = _impl["Dataset"].from_raw_list(am.raw_dataset(case["D"]))
-        ss = _impl["SS"](core.scheme_float(B, T, unit))
+        ss = core.build_scheme(B, T, unit, case.get("schemeform", case["id"] % 4))
         if case.get("lex") is not None:
             lib, tlc = core.lex_vectors(case["lex"])
             ss = _impl["SS"](lib)
